@@ -79,6 +79,22 @@ pub fn c03(g: &mut Gen) {
         lines.push("rl A ser".to_string());
         g.group(lines);
     }
+    // block 0 (64 code units) holds ONE run starting at position 0 — or one run after a gap — so that the first two blocks
+    // have the same number of zeros (or of ones) before them; then short runs for 1, 9, 21 blocks
+    for (first_start, first_len, gap2, len2) in [(0u64, (1u64 << 63) + 1, 1u64 << 60, (1u64 << 60) + 1), (0, (1u64 << 62) + 5, 1u64 << 61, (1u64 << 61) + 3),
+                                                 (1u64 << 60, (1u64 << 62) + 1, 1u64 << 61, (1u64 << 60) + 1), (0, 1u64 << 63, (1u64 << 62) - 9, 1u64 << 59)] {
+        for small in [0usize, 40, 300, 700] {
+            let mut runs: Vec<(u64, u64)> = vec![(first_start, first_len)];
+            let start = first_start + first_len + gap2;
+            runs.push((start, len2));
+            let mut pos = start + len2;
+            for _ in 0..small { runs.push((pos + 2, 3)); pos += 5; }
+            let len = pos + 17;
+            let mut lines = vec![format!("rl A build : {}", runs_calls(&runs, Some(len)))];
+            rl_queries(g, "A", &runs, len, 6, &mut lines);
+            g.group(lines);
+        }
+    }
     // run at position 0 / not, trailing zeros / not, magnitudes from 1 to 2^62, number of blocks 1, 8, 9, many
     let mag_sets: Vec<Vec<u64>> = vec![vec![1], vec![1, 7, 8], vec![1, 7, 8, 1 << 21], vec![1 << 21, 1 << 32], vec![1, 1 << 32, 1 << 40], vec![1 << 55, 1 << 58]];
     let counts: Vec<usize> = if g.thorough { vec![1, 2, 30, 33, 250, 270, 300, 1000, 3300] } else { vec![1, 2, 33, 260, 300, 700] };
